@@ -12,6 +12,9 @@ from . import common, docs, draws, engine, model as M, oracles as O, sources, wa
 from .common import Failure, Reporter
 
 
+ACT_MODES_LAZY = st.fixed_dictionaries({"flat_actions": st.sampled_from([True, True, False])})
+
+
 class Chk:
     def __init__(self, pid, rule, on_rec, on_start=None, on_reset=None, on_end=None,
                  both_sides=True, do_gen=True, modes=None, doc_kw=None,
@@ -20,7 +23,8 @@ class Chk:
         self.pid, self.rule = pid, rule
         self.on_rec, self.on_start, self.on_reset, self.on_end = on_rec, on_start, on_reset, on_end
         self.both_sides, self.do_gen = both_sides, do_gen
-        self.modes, self.doc_kw, self.weights = modes, doc_kw, weights
+        self.modes, self.doc_kw, self.weights = (modes if modes is not None else ACT_MODES_LAZY), doc_kw, weights
+        self.obs_modes = modes is not None
         self.quick, self.thorough = quick, thorough
         self.exhaustive = exhaustive
         self.assumptions = list(assumptions)
@@ -90,7 +94,8 @@ def _c08_reset(h, obs, info, rep):
     O.c08_initial(h, h.obs2d(obs), h.env.current_state.tensor, rep, "reset")
 
 
-OBS_MODES = st.fixed_dictionaries({"fully_obs": st.booleans(), "flat_obs": st.booleans()})
+OBS_MODES = st.fixed_dictionaries({"fully_obs": st.booleans(), "flat_obs": st.booleans(), "flat_actions": st.sampled_from([True, True, False])})
+ACT_MODES = st.fixed_dictionaries({"flat_actions": st.sampled_from([True, True, False])})
 
 CHECKS = {
     "C01": Chk("C01", GEN_RULE + "Non-trivial = exploit/escalation whose failing-gate set is empty, a single host-level "
@@ -232,7 +237,7 @@ def _exh_docs_shard(shard, seed, pid, tier, n_docs, cap):
     @given(doc=docs.documents(max_subnets=3, max_size=2, max_hosts=5, wide=0.15))
     def t(doc):
         src = {"kind": "doc", "doc": doc}
-        modes = {} if chk.modes is None else {"fully_obs": False, "flat_obs": True}
+        modes = {} if not chk.obs_modes else {"fully_obs": False, "flat_obs": True}
         try:
             s_, t_, complete = exhaustive(chk, rep, src, modes, cap=cap)
         except walk.SourceRejected:
@@ -285,7 +290,7 @@ def main(pid, tier, replay=None):
     if chk.exhaustive:
         names = EXH_THOROUGH if tier == "thorough" else EXH_QUICK
         modes_list = [{}]
-        if chk.modes is not None:
+        if chk.obs_modes:
             modes_list = [{"fully_obs": False, "flat_obs": True}, {"fully_obs": True, "flat_obs": False}]
         parts = engine.run_shards(_exh_shard, len(names), seed, pid=pid, tier=tier,
                                   names=names, modes_list=modes_list)
